@@ -288,6 +288,34 @@ func expectation(cont, key stick.Value, args []stick.Value) (mode expMode, cands
 	if cont == nil {
 		return mustErr, nil
 	}
+	if st, ok := key.(fmt.Stringer); ok && key != nil && isNumKind(reflect.ValueOf(key).Kind()) {
+		// a number whose type says how it prints (time.March): the element its own type finds in a map keyed by that
+		// type; otherwise what the number finds or what its text finds, or an error - never anything else
+		rv := reflect.ValueOf(key)
+		if cv := reflect.Indirect(reflect.ValueOf(cont)); cv.IsValid() && cv.Kind() == reflect.Map && rv.Type().AssignableTo(cv.Type().Key()) {
+			if e := cv.MapIndex(rv); e.IsValid() {
+				return mustElem, []interface{}{e.Interface()}
+			}
+		}
+		var num stick.Value
+		switch rv.Kind() {
+		case reflect.Float32, reflect.Float64:
+			num = rv.Float()
+		case reflect.Uint, reflect.Uint8, reflect.Uint16, reflect.Uint32, reflect.Uint64:
+			num = rv.Uint()
+		default:
+			num = rv.Int()
+		}
+		m1, c1 := expectation(cont, num, args)
+		m2, c2 := expectation(cont, st.String(), args)
+		if m1 == anyOutcome || m2 == anyOutcome || m1 == userPanic || m2 == userPanic {
+			return anyOutcome, nil
+		}
+		if cands = append(append(cands, c1...), c2...); len(cands) > 0 {
+			return elemOrErr, cands
+		}
+		return mustErr, nil
+	}
 	if pk, defined := predeclared(key); defined {
 		// a key of a defined type is the element under its own type if the container is keyed by that type,
 		// otherwise whatever the key of the underlying predeclared type selects - or an error
